@@ -22,6 +22,7 @@ import (
 	"math/rand"
 	"sort"
 	"sync"
+	"sync/atomic"
 	"time"
 
 	"github.com/tikv/pd/pkg/tsoutil"
@@ -578,100 +579,136 @@ func (x *env) gatedPhase() {
 		{"upd||set+10m||set+20m", []time.Duration{10 * time.Minute, 20 * time.Minute}, 1},
 		{"set+10m||set+20m", []time.Duration{10 * time.Minute, 20 * time.Minute}, 0},
 	}
+	// fault dimension: the k-th window save (in release order) of the concurrent operations fails,
+	// either without being applied or applied with the acknowledgement lost
+	type gfault struct {
+		name string
+		k    int32
+		mode etcdx.FaultMode
+	}
+	gfaults := []gfault{{"none", 0, etcdx.NoFault}, {"save1-lost-ack", 1, etcdx.LostAck}, {"save1-fail-before", 1, etcdx.FailBefore},
+		{"save2-lost-ack", 2, etcdx.LostAck}, {"save2-fail-before", 2, etcdx.FailBefore}}
 	for _, c := range cfgs {
 		nw := c.upds + len(c.sets)
 		for _, perm := range perms(nw) {
-			ex := &sched.Explorer{}
-			for {
-				ch := ex.Next()
-				if ch == nil {
-					break
-				}
-				w, err := tsow.NewWorld(x.e, x.root("g"), 1, time.Millisecond, 50*time.Millisecond)
-				if err != nil {
-					r.Inconclusive("world: %v", err)
-					return
-				}
-				s := &seqRun{x: x, w: w, saveIv: time.Millisecond, clock: tsow.ClockNormal}
-				m := w.Members[0]
-				s.serving = m
-				if err := m.Campaign(true); err != nil {
-					r.Inconclusive("campaign: %v", err)
-					w.Close()
-					return
-				}
-				if err := m.Alloc.Initialize(0); err != nil {
-					r.Inconclusive("init: %v", err)
-					w.Close()
-					return
-				}
-				s.record("init", "normal", nil)
-				s.grant(1)
-				time.Sleep(4 * time.Millisecond) // so that UpdateTSO sees jetLag > guard and needs a save (save interval 1 ms)
-				sc := sched.New()
-				sc.Stagger = true
-				m.Cl.Gate, m.Cl.Done = sc.Gate, sc.Done
-				var ws []func()
-				errs := make([]error, c.upds+len(c.sets))
-				for i := 0; i < c.upds; i++ {
-					i := i
-					ws = append(ws, func() { errs[i] = m.Alloc.UpdateTSO() })
-				}
-				now := time.Now()
-				for j, d := range c.sets {
-					j, d := j, d
-					ws = append(ws, func() {
-						errs[c.upds+j] = m.Alloc.SetTSO(tsoutil.GenerateTS(tsoutil.GenerateTimestamp(now.Add(d), 0)))
-					})
-				}
-				// start order = perm (worker numbers in the trace are positions in this order)
-				pw := make([]func(), len(ws))
-				for i, j := range perm {
-					pw[i] = ws[j]
-				}
-				sc.Run(pw, ch)
-				m.Cl.Gate, m.Cl.Done = nil, nil
-				ex.Advance(sc)
-				if sc.Err != nil {
-					r.Inconclusive("scheduler: %v", sc.Err)
-					w.Close()
-					return
-				}
-				es := make([]string, len(errs))
-				for i, e := range errs {
-					if e != nil {
-						es[i] = e.Error()
+			for _, gf := range gfaults {
+				ex := &sched.Explorer{}
+				for {
+					ch := ex.Next()
+					if ch == nil {
+						break
 					}
-				}
-				s.steps = append(s.steps, step{Op: "gated", Arg: map[string]interface{}{"config": c.name, "start_order": perm, "schedule": sc.Trace, "errors": es}, Bound: s.bound()})
-				r.Count("gated_storage_ops", int64(len(sc.Trace)))
-				// quiescent: exact checks
-				s.grant(1)
-				s.takeover("after the gated concurrent operations")
-				hs, err := x.e.History(w.TimestampKey(), w.StartRev)
-				if err == nil {
-					var prev int64
-					for _, hv := range hs {
-						v := tsow.DecodeBound([]byte(hv.Value))
-						if !hv.Delete && v < prev {
-							r.Violation("stored-bound-decreases:"+classify(s.steps), fmt.Sprintf("stored time window went from %d to %d ns", prev, v), s.witness(map[string]interface{}{"history": hs}))
-							break
-						}
-						if !hv.Delete {
-							prev = v
+					w, err := tsow.NewWorld(x.e, x.root("g"), 1, time.Millisecond, 50*time.Millisecond)
+					if err != nil {
+						r.Inconclusive("world: %v", err)
+						return
+					}
+					s := &seqRun{x: x, w: w, saveIv: time.Millisecond, clock: tsow.ClockNormal}
+					m := w.Members[0]
+					s.serving = m
+					if err := m.Campaign(true); err != nil {
+						r.Inconclusive("campaign: %v", err)
+						w.Close()
+						return
+					}
+					if err := m.Alloc.Initialize(0); err != nil {
+						r.Inconclusive("init: %v", err)
+						w.Close()
+						return
+					}
+					s.record("init", "normal", nil)
+					s.grant(1)
+					time.Sleep(4 * time.Millisecond) // so that UpdateTSO sees jetLag > guard and needs a save (save interval 1 ms)
+					sc := sched.New()
+					sc.Stagger = true
+					m.Cl.Gate, m.Cl.Done = sc.Gate, sc.Done
+					var saves, injected int32
+					if gf.k > 0 {
+						gf := gf
+						tsKey := w.TimestampKey()
+						m.Cl.Decide = func(rpc *etcdx.RPC) etcdx.FaultMode {
+							if rpc.Method != "Txn" || !rpc.Write {
+								return etcdx.NoFault
+							}
+							hit := false
+							for _, k := range rpc.Keys {
+								if k == tsKey {
+									hit = true
+								}
+							}
+							if hit && atomic.AddInt32(&saves, 1) == gf.k {
+								atomic.StoreInt32(&injected, 1)
+								return gf.mode
+							}
+							return etcdx.NoFault
 						}
 					}
-				}
-				m.Resign()
-				w.Close()
-				r.Eval(1)
-				r.Count("gated_schedules", 1)
-				r.Distinct("gated|" + c.name + "|" + fmt.Sprint(perm) + "|" + sc.TraceKey())
-				if r.Counter("gated_schedules") == 2 {
-					r.Sample(map[string]interface{}{"mode": "gated", "config": c.name, "schedule": sc.Trace, "steps": s.steps})
-				}
-				if ex.Runs > 400 {
-					break
+					var ws []func()
+					errs := make([]error, c.upds+len(c.sets))
+					for i := 0; i < c.upds; i++ {
+						i := i
+						ws = append(ws, func() { errs[i] = m.Alloc.UpdateTSO() })
+					}
+					now := time.Now()
+					for j, d := range c.sets {
+						j, d := j, d
+						ws = append(ws, func() {
+							errs[c.upds+j] = m.Alloc.SetTSO(tsoutil.GenerateTS(tsoutil.GenerateTimestamp(now.Add(d), 0)))
+						})
+					}
+					// start order = perm (worker numbers in the trace are positions in this order)
+					pw := make([]func(), len(ws))
+					for i, j := range perm {
+						pw[i] = ws[j]
+					}
+					sc.Run(pw, ch)
+					m.Cl.Gate, m.Cl.Done = nil, nil
+					m.Cl.Decide = nil
+					if atomic.LoadInt32(&injected) == 1 {
+						r.Count("gated_faults_injected", 1)
+					}
+					ex.Advance(sc)
+					if sc.Err != nil {
+						r.Inconclusive("scheduler: %v", sc.Err)
+						w.Close()
+						return
+					}
+					es := make([]string, len(errs))
+					for i, e := range errs {
+						if e != nil {
+							es[i] = e.Error()
+						}
+					}
+					s.steps = append(s.steps, step{Op: "gated", Arg: map[string]interface{}{"config": c.name, "fault": gf.name, "start_order": perm, "schedule": sc.Trace, "errors": es}, Bound: s.bound()})
+					r.Count("gated_storage_ops", int64(len(sc.Trace)))
+					// quiescent: exact checks
+					s.grant(1)
+					s.takeover("after the gated concurrent operations")
+					hs, err := x.e.History(w.TimestampKey(), w.StartRev)
+					if err == nil {
+						var prev int64
+						for _, hv := range hs {
+							v := tsow.DecodeBound([]byte(hv.Value))
+							if !hv.Delete && v < prev {
+								r.Violation("stored-bound-decreases:"+classify(s.steps), fmt.Sprintf("stored time window went from %d to %d ns", prev, v), s.witness(map[string]interface{}{"history": hs}))
+								break
+							}
+							if !hv.Delete {
+								prev = v
+							}
+						}
+					}
+					m.Resign()
+					w.Close()
+					r.Eval(1)
+					r.Count("gated_schedules", 1)
+					r.Distinct("gated|" + c.name + "|" + gf.name + "|" + fmt.Sprint(perm) + "|" + sc.TraceKey())
+					if r.Counter("gated_schedules") == 2 {
+						r.Sample(map[string]interface{}{"mode": "gated", "config": c.name, "schedule": sc.Trace, "steps": s.steps})
+					}
+					if ex.Runs > 400 {
+						break
+					}
 				}
 			}
 		}
@@ -831,7 +868,7 @@ func (x *env) probeFailpoints() bool {
 
 func main() {
 	r := ev.New("C02", "fault_enumeration")
-	r.Rule("sequential histories over {generate n, UpdateTSO (clock normal/+1h/-1h), SetTSO (8 kinds of targets), Reset+Initialize, hand-over, restart, fail-before/lost-ack on the window txn}, save interval in {1ms,50ms,3s}; after every op and at every committed window write a successor (clock normal and -1h) takes over from the durable state (crash point enumeration); gated: every release order of the window transactions of UpdateTSO || SetTSO [|| SetTSO]; free-running: 6 requesters + 1 ms updater + resets. distinct = save interval x op shape (sequential), config x schedule (gated), parameters (free)")
+	r.Rule("sequential histories over {generate n, UpdateTSO (clock normal/+1h/-1h), SetTSO (8 kinds of targets), Reset+Initialize, hand-over, restart, fail-before/lost-ack on the window txn}, save interval in {1ms,50ms,3s}; after every op and at every committed window write a successor (clock normal and -1h) takes over from the durable state (crash point enumeration); gated: every release order of the window transactions of UpdateTSO || SetTSO [|| SetTSO], crossed with {no fault, fail-before, lost-ack} on the first or second window save in release order; free-running: 6 requesters + 1 ms updater + resets. distinct = save interval x op shape (sequential), config x schedule (gated), parameters (free)")
 	r.Assume("clock offsets are the repository's own failpoints fallBackSync/fallBackUpdate/systemTimeSlow enabled on a scratch copy by failpoint-ctl; the evidence key clock_failpoints_effective says whether they were live")
 	r.Assume("a crash of the serving process is emulated by taking over from a copy of the durable timestamp key under a fresh root with the real campaign + Initialize + GenerateTSO code of a new member")
 	srv.Quiet()
